@@ -230,6 +230,8 @@ type qhist struct {
 	latent  bool
 	viol    bool
 	moved   map[uint64]bool // items that went through the latent ReassignValidator
+	tids    map[string]string // chain -> current compass id
+	scIDs   map[string]uint64
 	snapID  uint64          // id of the harness-built valset snapshot
 	shares  [nVals]int64
 	lastPub string          // what the last published snapshot looked like (members, shares)
@@ -484,8 +486,15 @@ func classOf(err error) int64 {
 	return 50
 }
 
+func (h *qhist) tidOf(chain string) string {
+	if t, ok := h.tids[chain]; ok {
+		return t
+	}
+	return "compass-" + chain
+}
+
 func newQHist(t *testing.T, run *emit.Run) *qhist {
-	h := &qhist{t: t, run: run, e: newQEnv(t), addrIDs: map[string]int64{}, keyIDs: map[string]int64{}, ethIDs: map[string]int64{}, nEnc: map[int64]int64{}, relIDs: map[string]int64{},
+	h := &qhist{tids: map[string]string{}, scIDs: map[string]uint64{},t: t, run: run, e: newQEnv(t), addrIDs: map[string]int64{}, keyIDs: map[string]int64{}, ethIDs: map[string]int64{}, nEnc: map[int64]int64{}, relIDs: map[string]int64{},
 		bodyIDs: map[string]int64{}, chainOf: map[uint64]string{}, vers: map[uint64][]version{}, regAt: map[string]string{}}
 	for i := 0; i < 7; i++ {
 		b := make([]byte, 32)
@@ -575,7 +584,7 @@ func (h *qhist) opPut() {
 	if !strings.HasPrefix(rel, "0x") && !strings.HasPrefix(rel, "0X") {
 		rel = "0x" + rel
 	}
-	em := &evmtypes.Message{ChainReferenceID: chain, TurnstoneID: "compass-" + chain, Assignee: h.e.vals[asg].String(), AssigneeRemoteAddress: rel}
+	em := &evmtypes.Message{ChainReferenceID: chain, TurnstoneID: h.tidOf(chain), Assignee: h.e.vals[asg].String(), AssigneeRemoteAddress: rel}
 	needs := r.Intn(4) > 0
 	pay := bodyPool[r.Intn(len(bodyPool))]
 	switch k := r.Intn(10); {
@@ -952,14 +961,26 @@ func (h *qhist) opPublish(sameMembers bool) {
 	}
 	h.lastPub = desc
 	h.e.vs.snap = snap
-	before := map[uint64]itemView{}
-	for _, iv := range h.allItems() {
-		before[iv.id] = iv
-	}
+	before := h.snapshotItems()
 	if err := h.e.evm.PublishSnapshotToAllChains(h.e.ctx, snap, true); err != nil {
 		h.t.Fatalf("PublishSnapshotToAllChains: %v", err)
 	}
 	h.run.Count("op", how)
+	h.readBack(before, how, "publish-effect")
+}
+
+// snapshotItems / readBack: what an operation of another module did to the queues, read back and given to the model:
+// deleted messages are Remove steps, new ones Put steps, a message whose content changed IN PLACE a Replace step
+// (Put with MsgIDToReplace keeps SignData - the oracle then re-verifies what is left on it).
+func (h *qhist) snapshotItems() map[uint64]itemView {
+	before := map[uint64]itemView{}
+	for _, iv := range h.allItems() {
+		before[iv.id] = iv
+	}
+	return before
+}
+
+func (h *qhist) readBack(before map[uint64]itemView, how, hist string) {
 	type st struct {
 		coq string
 		rep map[string]any
@@ -977,7 +998,7 @@ func (h *qhist) opPublish(sameMembers bool) {
 		_, ob, _ := describe(old.em)
 		_, nb, _ := describe(iv.em)
 		if ob != nb {
-			h.run.Count("publish-effect", fmt.Sprintf("changed in place (%d signatures on it)", len(iv.qm.GetSignData())))
+			h.run.Count(hist, fmt.Sprintf("changed in place (%d signatures on it)", len(iv.qm.GetSignData())))
 			steps = append(steps, st{fmt.Sprintf("C06.QReplace %d %d %d", qchainID(iv.chain), iv.id, idOf(h.bodyIDs, nb)),
 				map[string]any{"op": how + " -> message content replaced in place", "id": iv.id, "chain": iv.chain, "signatures_on_it": len(iv.qm.GetSignData())}})
 		}
@@ -992,8 +1013,8 @@ func (h *qhist) opPublish(sameMembers bool) {
 	var rm []st
 	for _, id := range gone {
 		old := before[id]
-		h.run.Count("publish-effect", fmt.Sprintf("superseded update deleted (signed: %v)", len(old.qm.GetSignData()) > 0))
-		rm = append(rm, st{fmt.Sprintf("C06.QRemove %d %d", qchainID(old.chain), id), map[string]any{"op": how + " -> pending valset update deleted", "id": id, "chain": old.chain}})
+		h.run.Count(hist, fmt.Sprintf("message deleted (signed: %v)", len(old.qm.GetSignData()) > 0))
+		rm = append(rm, st{fmt.Sprintf("C06.QRemove %d %d", qchainID(old.chain), id), map[string]any{"op": how + " -> pending message deleted", "id": id, "chain": old.chain}})
 		for i, x := range h.items {
 			if x == id {
 				h.items = append(h.items[:i], h.items[i+1:]...)
@@ -1004,15 +1025,15 @@ func (h *qhist) opPublish(sameMembers bool) {
 	steps = append(rm, steps...)
 	for _, iv := range fresh {
 		kind, body, _ := describe(iv.em)
-		h.run.Count("publish-effect", "valset update queued")
+		h.run.Count(hist, "message queued")
 		h.items = append(h.items, iv.id)
 		h.chainOf[iv.id] = iv.chain
 		steps = append(steps, st{fmt.Sprintf("C06.QPut %d %d %d %d %s", qchainID(iv.chain), kind, idOf(h.bodyIDs, body), idOf(h.relIDs, lowerOf(iv.em.AssigneeRemoteAddress)), emit.Bool(iv.qm.GetRequireGasEstimation())),
-			map[string]any{"op": how + " -> valset update queued", "id": iv.id, "chain": iv.chain, "valset_id": h.snapID, "relayer": iv.em.AssigneeRemoteAddress}})
+			map[string]any{"op": how + " -> message queued", "id": iv.id, "chain": iv.chain, "relayer": iv.em.AssigneeRemoteAddress}})
 	}
 	if len(steps) == 0 {
-		h.run.Count("publish-effect", "nothing")
-		h.replay = append(h.replay, map[string]any{"op": how, "snapshot_id": h.snapID})
+		h.run.Count(hist, "nothing")
+		h.replay = append(h.replay, map[string]any{"op": how})
 		h.observe(how)
 		return
 	}
@@ -1026,6 +1047,48 @@ func (h *qhist) opPublish(sameMembers bool) {
 		}
 		h.step(x.coq, 0, x.rep)
 	}
+}
+
+// opCompassUpgrade (seeded C06-K): a new compass with another unique id is activated for a chain that is already active
+// (the end of a compass handover) while messages created - and possibly signed - for the previous compass are still
+// queued.  The compass id is hashed into their signing bytes: whatever evm does to them must not leave signatures behind
+// that were given for the old id.
+func (h *qhist) opCompassUpgrade() {
+	r := h.run.Rng
+	chain := qchains[r.Intn(len(qchains))]
+	if h.scIDs[chain] == 0 {
+		h.scIDs[chain] = 1
+	}
+	h.scIDs[chain]++
+	newTid := fmt.Sprintf("compass-%d-%s", h.scIDs[chain], chain)
+	before := h.snapshotItems()
+	if err := h.e.evm.ActivateChainReferenceID(h.e.ctx, chain, &evmtypes.SmartContract{Id: h.scIDs[chain]}, "0x5A3E98aA540B2C3545E1DbA2D5e8B3e3e8bD3c7e", []byte(newTid)); err != nil {
+		h.t.Fatalf("ActivateChainReferenceID: %v", err)
+	}
+	h.tids[chain] = newTid
+	h.run.Count("op", "compass-upgrade")
+	h.readBack(before, "compass upgrade on "+chain+" (new id "+newTid+")", "compass-upgrade-effect")
+}
+
+// opFeeSettings (seeded C06-M): the relayer fee setting of a validator for the chains is withdrawn (set to zero: the fees of
+// a message assigned to it cannot be calculated, its estimate election is rolled back) or set (again).
+func (h *qhist) opFeeSettings() {
+	r := h.run.Rng
+	v := r.Intn(nVals)
+	rfs := &treasurytypes.RelayerFeeSetting{ValAddress: h.e.vals[v].String()}
+	how := "relayer-fee-withdrawn"
+	if r.Intn(3) > 0 {
+		how = "relayer-fee-set"
+		for _, c := range qchains {
+			rfs.Fees = append(rfs.Fees, treasurytypes.RelayerFeeSetting_FeeSetting{ChainReferenceId: c, Multiplicator: sdkmath.LegacyNewDecWithPrec(int64(100+r.Intn(200)+v), 2)})
+		}
+	}
+	if err := h.e.tre.SetRelayerFee(h.e.ctx, h.e.vals[v], rfs); err != nil {
+		h.t.Fatalf("SetRelayerFee: %v", err)
+	}
+	h.run.Count("op", how)
+	h.replay = append(h.replay, map[string]any{"op": how, "validator": v})
+	h.observe(how)
 }
 
 func (h *qhist) opRemove() {
@@ -1152,12 +1215,16 @@ func runQueueHistory(t *testing.T, run *emit.Run, latent bool) *qhist {
 			h.opSignMulti()
 		case k < 68:
 			h.opEstimates()
-		case k < 72:
+		case k < 71:
 			h.opPublish(r.Intn(2) == 0)
+		case k < 72:
+			h.opCompassUpgrade()
 		case k < 82:
 			h.opEndBlock()
-		case k < 88:
+		case k < 86:
 			h.opReRegister()
+		case k < 88:
+			h.opFeeSettings()
 		case k < 92:
 			h.opHandover()
 		case k < 96:
